@@ -102,6 +102,41 @@ pub fn instance<T: Send + 'static>(
     }
 }
 
+/// Like [`instance`], with a wall-clock watchdog for code that may never return (a synchronous infinite loop inside one
+/// poll). `Err("WATCHDOG...")` means the instance did not finish in time; its thread is abandoned (it cannot be killed),
+/// so the caller should wind down the process soon. The limit is generous and a hit is re-confirmed by the parent in a
+/// dedicated process before it counts.
+pub fn instance_timeout<T: Send + 'static>(
+    hash_seed: u64,
+    clock_origin_ns: Option<i128>,
+    timeout: std::time::Duration,
+    f: impl FnOnce() -> T + Send + 'static,
+) -> Result<T, String> {
+    let (tx, rx) = std::sync::mpsc::channel();
+    let h = std::thread::Builder::new()
+        .stack_size(8 << 20)
+        .spawn(move || {
+            crate::interpose::enter_instance(hash_seed, clock_origin_ns);
+            let r = std::panic::catch_unwind(std::panic::AssertUnwindSafe(f));
+            let _ = tx.send(match r {
+                Ok(v) => Ok(v),
+                Err(p) => Err(panic_message(&p)),
+            });
+        })
+        .unwrap_or_else(|e| crate::harness_error(&format!("thread spawn: {e}")));
+    match rx.recv_timeout(timeout) {
+        Ok(r) => {
+            let _ = h.join();
+            r
+        }
+        Err(_) => Err(format!("WATCHDOG: no result within {} s of wall-clock time", timeout.as_secs())),
+    }
+}
+
+pub fn is_watchdog(e: &str) -> bool {
+    e.starts_with("WATCHDOG")
+}
+
 pub fn panic_message(p: &Box<dyn std::any::Any + Send>) -> String {
     if let Some(s) = p.downcast_ref::<&str>() {
         s.to_string()
